@@ -157,6 +157,19 @@ func (x *Exec) shouldInline(st *State, name string, fn *ssa.Function) bool {
 	if x.Cfg.Inline[name] {
 		return true
 	}
+	// policy given by the contract of the function under verification
+	if x.TopC != nil {
+		for _, pat := range flagList(x.TopC, "noinline") {
+			if matchCallee(pat, name) {
+				return false
+			}
+		}
+		for _, pat := range flagList(x.TopC, "inline") {
+			if matchCallee(pat, name) {
+				return true
+			}
+		}
+	}
 	if fn.Parent() != nil {
 		return true // closures are always inlined
 	}
@@ -164,7 +177,24 @@ func (x *Exec) shouldInline(st *State, name string, fn *ssa.Function) bool {
 	for _, b := range fn.Blocks {
 		n += len(b.Instrs)
 	}
-	return n <= x.Cfg.AutoInlineMax
+	max := x.Cfg.AutoInlineMax
+	if x.TopC != nil {
+		if v, ok := x.TopC.Flags["auto_inline"]; ok {
+			fmt.Sscan(v, &max)
+		}
+	}
+	return n <= max
+}
+
+// flagList returns the comma/space separated arguments of every flag clause of that kind.
+func flagList(c *Contract, kind string) []string {
+	var out []string
+	for _, cl := range c.Clauses {
+		if cl.Kind == kind {
+			out = append(out, cl.Args...)
+		}
+	}
+	return out
 }
 
 // ---------- effects of abstract calls ----------
